@@ -71,6 +71,9 @@ func init() {
 			{ID: "C02.11", Desc: "a quoted-pair stands for the escaped octet (max-age=\"\\0\", no-cache=\"Set\\-Cookie\")", Run: func(c *Ctx) { ruleQuotedPair(c, "C02.11") }, MinSites: 1},
 			{ID: "C02.12", Desc: "fields named by a qualified no-cache are removed from the trailers as well (a field sent as a trailer is replayed as one)", Run: func(c *Ctx) { ruleNoCacheFieldsLeaveTrailers(c, "C02.12") }, MinSites: 1},
 			{ID: "C02.13", Desc: "parsed directive maps are private to the exchange: never written after parsing, never handed out from a memo table (a request max-age=0 edited away stays away)", Run: func(c *Ctx) { ruleDirectiveMapsPrivate(c, "C02.13") }, MinSites: 2},
+			{ID: "C02.14", Desc: "each stored validator is put on the validation request whatever the other one is", Run: func(c *Ctx) { ruleEachValidatorOnItsOwn(c, "C02.14") }, MinSites: 1},
+			{ID: "C02.15", Desc: "a valid Date of the origin is kept (Expires minus Date is the origin's lifetime, also when its clock runs ahead)", Run: func(c *Ctx) { ruleDateRepair(c, "C02.15") }, MinSites: 1},
+			{ID: "C02.16", Desc: "`Expires: 0` is an explicit expiry for a must-revalidate response (presence is not validity)", Run: func(c *Ctx) { ruleExpiresFoundIsPresence(c, "C02.16") }, MinSites: 1},
 		},
 	})
 }
